@@ -83,7 +83,13 @@ func (evt *endEvent) NextAction(ctx context.Context, flow Flow) chan IAction {
 	})
 
 	response := make(chan IAction, 1)
-	evt.mch <- nextActionMessage{response: response}
+	select {
+	case evt.mch <- nextActionMessage{response: response}:
+	case <-ctx.Done():
+		// the node's loop has ended with its context and the inbox is full (more tokens
+		// than it holds arrived since): the flow, which watches the same context, gets a
+		// channel on which no action ever arrives
+	}
 	return response
 }
 
